@@ -157,4 +157,8 @@ Inv_NoSilentLoss == (Depth = 0 /\ ~err) => \A v \in Vars : (vals[v] = Undef => n
 \* generator: every closed event sequence (depth 0) that ends with a closing event
 EmitBeh == (Depth = 0 /\ hist # <<>> /\ hist[Len(hist)].a \in {"endif", "endwhile"})
               => PrintT(<<"BEH", ToJson([hist |-> hist, err |-> err, vals |-> vals, nat |-> nat])>>)
+
+\* generator of sequences that END in a structural error raised by the API while leaving a branch (for C08: the guard
+\* must already be restored when that error escapes)
+EmitErr == (err /\ hist # <<>>) => PrintT(<<"ERR", ToJson([hist |-> hist])>>)
 =============================================================================
